@@ -226,10 +226,11 @@ REGISTRY = {
     ),
     "C07": dict(
         jobs=lambda tier, seed: __import__("vf.props.secondq", fromlist=["x"]).configs(tier),
-        job_of_config=_job_of("vf.props.secondq", "c07"),
+        job_of_config=lambda cfg: ("vf.props.secondq", "c07_accepted" if cfg.get("_job") == "accepted" else "c07"),
         technique="real block_diagonalize on second-quantised Hamiltonians (bosons, fermions, spins, ladder operators, operator masks, matrix-valued) with SYMBOLIC parameters; the returned operator series are denoted by "
         "their action on a Fock state with symbolic boson occupations (binary occupations case-split) and z3 decides the operator identities U^dagger U = 1, U^dagger H U = H_tilde, U^dagger = adjoint(U), "
-        "H_tilde has only kept components, anti-Hermitian part of U only eliminated ones (=> uniqueness => equality with the matrix result); plus a literal comparison with numeric block_diagonalize of truncated matrices at a seeded parameter point",
+        "H_tilde has only kept components, anti-Hermitian part of U only eliminated ones (=> uniqueness => equality with the matrix result); an acceptance job (concrete): valid inputs in forms the evaluator cannot denote "
+        "(elimination rules with wildcard powers, matrices of generic Hermitian operators) must be accepted and give the result of the equivalent plainly written input; plus a literal comparison with numeric block_diagonalize of truncated matrices at a seeded parameter point",
         bounds={
             "quick": "16 model families (anharmonic x^3/x^4, displaced, Kerr+two-photon drive, two bosons, Rabi, detuned JC, 2-fermion hopping, 3-fermion hopping+pairing, interacting fermions, Holstein, ladder+spin, "
             "two operator masks, 2x2 matrix-valued with 1 and 2 blocks) to order 2-3",
